@@ -21,6 +21,12 @@
 //!   c17.readobj            every object of generated documents behind a prefix, read in the call shape of resolve_ref's
 //!                          direct branch (suffix at start + offset, lexer offset = that position, parse_indirect_object):
 //!                          Model/Parser.lean (`c03.parse ind0`) against the implementation
+//!   c17.xrefsec(.outside)  every cross-reference section of generated documents (classic tables and streams) read from its
+//!                          suffix: Model/XrefTable + XrefStreamSection against read_xref_and_trailer_at (outside: cut short, entered late)
+//!   c17.loadc(.outside)    whole files: header, startxref, all sections through /Prev, merged table and trailer:
+//!                          XrefSec.loadTableC against Backend::read_xref_table_and_trailer (outside: damaged offsets / loops / sizes)
+//!   c17.scanc / .corpus    the item loop of Storage::scan on the concrete lexer / parser (Model/ScanLoop.lean) against the
+//!                          real iterator: items, order, values and stream ranges; generated documents and corpus files, with and without prefix
 //!   c17.load.outside       the same documents with damaged offsets (beyond the file, near 2^64, /Prev loops,
 //!                          bad /Size, index out of range, /Length pointing at the wrong kind)
 //! Oracles (the implementation against the property itself):
@@ -883,6 +889,276 @@ pub fn readobj_streams(driver: &Driver, seed: u64, thorough: bool, rep: &mut Rep
 }
 
 // ---------------------------------------------------------------------------------------------------
+// the concrete section reader and scan loop (Model/XrefTable + XrefStreamSection, Model/ScanLoop)
+
+/// the resolver as it is while the table is being loaded: no object can be resolved, stream data comes
+/// straight out of the backend
+pub struct LoadResolve<'a> {
+    pub buf: &'a [u8],
+    pub opts: ParseOptions,
+}
+
+impl<'a> Resolve for LoadResolve<'a> {
+    fn resolve_flags(&self, r: PlainRef, _flags: pdf::parser::ParseFlags, _depth: usize) -> pdf::error::Result<Primitive> {
+        Err(pdf::error::PdfError::UnspecifiedXRefEntry { id: r.id })
+    }
+    fn get<T: pdf::object::Object>(&self, _r: pdf::object::Ref<T>) -> pdf::error::Result<pdf::object::RcRef<T>> {
+        Err(pdf::error::PdfError::Reference)
+    }
+    fn options(&self) -> &ParseOptions {
+        &self.opts
+    }
+    fn stream_data(&self, _id: PlainRef, range: std::ops::Range<usize>) -> pdf::error::Result<std::sync::Arc<[u8]>> {
+        self.buf.get(range).map(|d| std::sync::Arc::from(d)).ok_or(pdf::error::PdfError::ContentReadPastBoundary)
+    }
+    fn get_data_or_decode(&self, _id: PlainRef, range: std::ops::Range<usize>, filters: &[pdf::enc::StreamFilter]) -> pdf::error::Result<std::sync::Arc<[u8]>> {
+        let mut data = self.buf.get(range).ok_or(pdf::error::PdfError::ContentReadPastBoundary)?.to_vec();
+        for f in filters {
+            data = pdf::enc::decode(&data, f)?;
+        }
+        Ok(data.into())
+    }
+}
+
+fn show_xref(e: &pdf::xref::XRef) -> String {
+    use pdf::xref::XRef;
+    match *e {
+        XRef::Free { next_obj_nr, gen_nr } => format!("f.{}.{}", next_obj_nr, gen_nr),
+        XRef::Raw { pos, gen_nr } => format!("r.{}.{}", pos, gen_nr),
+        XRef::Stream { stream_id, index } => format!("s.{}.{}", stream_id, index),
+        XRef::Promised => "P".into(),
+        XRef::Invalid => "I".into(),
+    }
+}
+
+fn canon_dict_val(d: &pdf::primitive::Dictionary) -> String {
+    let res = crate::c03::TestResolve::new(&vec![], false);
+    crate::c03::render::show_canon(&crate::c03::prim_to_val(&Primitive::Dictionary(d.clone()), &res))
+}
+
+fn canon_model_val(s: &str) -> String {
+    match crate::c03::render::read_val(s) {
+        Some(v) => crate::c03::render::show_canon(&v),
+        None => format!("unreadable:{}", s),
+    }
+}
+
+fn strict_or(allow_xref_error: bool) -> ParseOptions {
+    let mut o = ParseOptions::strict();
+    o.allow_xref_error = allow_xref_error;
+    o
+}
+
+/// `read_xref_and_trailer_at(Lexer::with_offset(read(q ..), q))`
+fn real_xrefsec(buf: &[u8], q: usize, allow_err: bool) -> String {
+    let r = catch_unwind(AssertUnwindSafe(|| {
+        let res = LoadResolve { buf, opts: strict_or(allow_err) };
+        if q > buf.len() { return "err".to_string(); }
+        let mut lx = Lexer::with_offset(&buf[q..], q);
+        match pdf::parser::read_xref_and_trailer_at(&mut lx, &res) {
+            Ok((secs, trailer)) => {
+                let subs = if secs.is_empty() { "-".to_string() } else {
+                    secs.iter().map(|s| format!("{}:{}", s.first_id, if s.entries.is_empty() { "-".to_string() } else { s.entries.iter().map(show_xref).collect::<Vec<_>>().join(",") })).collect::<Vec<_>>().join(";")
+                };
+                format!("ok {} {}", subs, canon_dict_val(&trailer))
+            }
+            Err(_) => "err".to_string(),
+        }
+    }));
+    r.unwrap_or_else(|_| "panic".into())
+}
+
+fn canon_sec_answer(m: &str) -> String {
+    let f: Vec<&str> = m.split(' ').collect();
+    if f.len() == 3 && f[0] == "ok" { format!("ok {} {}", f[1], canon_model_val(f[2])) } else { m.to_string() }
+}
+
+/// `Backend::read_xref_table_and_trailer(start, resolver-with-an-empty-table)`
+fn real_loadc(buf: &Vec<u8>) -> String {
+    let r = catch_unwind(AssertUnwindSafe(|| {
+        let start = match buf.locate_start_offset() { Ok(s) => s, Err(_) => return "err".to_string() };
+        let res = LoadResolve { buf, opts: ParseOptions::strict() };
+        match buf.read_xref_table_and_trailer(start, &res) {
+            Ok((t, trailer)) => {
+                let es: Vec<String> = (0..t.len()).map(|i| t.get(i as u64).map(|e| show_xref(&e)).unwrap_or("?".into())).collect();
+                format!("ok {} {} {}", start, es.join(","), canon_dict_val(&trailer))
+            }
+            Err(_) => "err".to_string(),
+        }
+    }));
+    r.unwrap_or_else(|_| "panic".into())
+}
+
+fn canon_loadc_answer(m: &str) -> String {
+    let f: Vec<&str> = m.split(' ').collect();
+    if f.len() == 4 && f[0] == "ok" { format!("ok {} {} {}", f[1], f[2], canon_model_val(f[3])) } else { m.to_string() }
+}
+
+/// the items of the real `Storage::scan`, in the notation of `c17.scanc`
+fn real_scanc(buf: &Vec<u8>, lens: &crate::c03::LenMap) -> String {
+    let r = catch_unwind(AssertUnwindSafe(|| {
+        let mut storage = match Storage::with_cache(buf.clone(), ParseOptions::strict(), NoCache, NoCache, NoLog) { Ok(s) => s, Err(_) => return "err".to_string() };
+        let _ = storage.load_storage_and_trailer();
+        let res = crate::c03::TestResolve::new(lens, false);
+        let mut out = vec![];
+        for item in storage.scan().take(200_000) {
+            out.push(match item {
+                Ok(ScanItem::Object(r, p)) => format!("O{}.{}={}", r.id, r.gen, crate::c03::render::show_canon(&crate::c03::prim_to_val(&p, &res))),
+                Ok(ScanItem::Trailer(d)) => format!("T={}", canon_dict_val(&d)),
+                Err(_) => "E".to_string(),
+            });
+        }
+        if out.len() == 1 && out[0] == "E" { "err".to_string() } else { format!("ok {}", out.join(" ")) }
+    }));
+    r.unwrap_or_else(|_| "panic".into())
+}
+
+fn canon_scanc_answer(m: &str) -> String {
+    if !m.starts_with("ok") { return m.to_string(); }
+    let items: Vec<String> = m.split(' ').skip(1).filter(|x| !x.is_empty()).map(|it| {
+        if let Some((h, v)) = it.split_once('=') { format!("{}={}", h, canon_model_val(v)) } else { it.to_string() }
+    }).collect();
+    format!("ok {}", items.join(" "))
+}
+
+fn doc_lens(doc: &GenDoc) -> crate::c03::LenMap {
+    doc.written.iter().filter_map(|x| match x { Written::Stream { len_id, len, how, .. } if !matches!(how, LenHow::Direct) => Some(((*len_id, 0), *len)), _ => None }).collect()
+}
+
+/// c17.xrefsec / c17.loadc / c17.scanc: the concrete section reader, loader and scan loop against
+/// `read_xref_and_trailer_at`, `read_xref_table_and_trailer` and `Storage::scan`
+pub fn concrete_streams(driver: &Driver, seed: u64, thorough: bool, rep: &mut Report) {
+    // sections of generated documents, both formats, read from their suffix
+    let mut st = Stream::new("c17.xrefsec", true);
+    let mut so = Stream::new("c17.xrefsec.outside", false);
+    let n = if thorough { 8000 } else { 500 };
+    let (mut cases, mut cases_o) = (vec![], vec![]);
+    for case in 0..n {
+        let mut rng = Rng::derive(seed, "c17.xrefsec", case);
+        let doc = gen_doc(&mut rng, false, Damage::None);
+        let l = if rng.chance(1, 2) { 0 } else { pick_prefix_len(&mut rng) };
+        let (p, _) = gen_prefix(&mut rng, l);
+        let mut buf = p.clone();
+        buf.extend_from_slice(&doc.bytes);
+        for (xoff, subs, ..) in &doc.sections {
+            let q = l + *xoff as usize;
+            if buf.len() - q > 6000 { continue; }
+            st.count(if subs.contains("s.") || buf[q..].starts_with(b"xref") == false { "format=stream" } else { "format=table" });
+            let allow = rng.chance(1, 4);
+            cases.push((format!("c17.xrefsec {} {}", hex(&buf[q..]), if allow { 1 } else { 0 }), real_xrefsec(&buf, q, allow)));
+            // outside: the same section cut short, or entered a few bytes late
+            let cut = q + 1 + rng.usize((buf.len() - q).max(2) - 1);
+            let b2 = buf[..cut].to_vec();
+            cases_o.push((format!("c17.xrefsec {} 0", hex(&b2[q..])), real_xrefsec(&b2, q, false)));
+            let q2 = (q + 1 + rng.usize(6)).min(buf.len());
+            cases_o.push((format!("c17.xrefsec {} 0", hex(&buf[q2..])), real_xrefsec(&buf, q2, false)));
+        }
+    }
+    for (stream, cs) in [(&mut st, &cases), (&mut so, &cases_o)] {
+        let reqs: Vec<String> = cs.iter().map(|c| c.0.clone()).collect();
+        for ((rq, imp), m) in cs.iter().zip(driver.ask(&reqs).iter()) {
+            let mm = canon_sec_answer(m);
+            stream.count(&format!("outcome={}", mm.split(' ').next().unwrap_or("")));
+            stream.case(rq, &mm, imp, true);
+        }
+    }
+    rep.streams.push(st);
+    rep.streams.push(so);
+
+    // whole files: header, startxref, every section through /Prev, the merged table and the trailer
+    for (name, outside) in [("c17.loadc", false), ("c17.loadc.outside", true)] {
+        let mut st = Stream::new(name, !outside);
+        let n = if thorough { 8000 } else { 500 };
+        let mut cases = vec![];
+        for case in 0..n {
+            let mut rng = Rng::derive(seed, name, case);
+            let damage = if outside { *rng.pick(&[Damage::StartxrefBeyond, Damage::StartxrefHuge, Damage::PrevLoop, Damage::PrevBeyond, Damage::SizeHuge]) } else { Damage::None };
+            let doc = gen_doc(&mut rng, false, damage);
+            let l = if rng.chance(1, 3) { 0 } else { pick_prefix_len(&mut rng) };
+            let (p, _) = gen_prefix(&mut rng, l);
+            let mut buf = p.clone();
+            buf.extend_from_slice(&doc.bytes);
+            if buf.len() > 8000 { continue; }
+            st.count(&format!("revisions={}", doc.sections.len()));
+            st.count(&format!("damage={:?}", damage));
+            cases.push((format!("c17.loadc {}", hex(&buf)), real_loadc(&buf)));
+        }
+        let reqs: Vec<String> = cases.iter().map(|c| c.0.clone()).collect();
+        for ((rq, imp), m) in cases.iter().zip(driver.ask(&reqs).iter()) {
+            let mm = canon_loadc_answer(m);
+            st.count(&format!("outcome={}", mm.split(' ').next().unwrap_or("")));
+            st.case(rq, &mm, imp, true);
+        }
+        rep.streams.push(st);
+    }
+
+    // the scan loop on generated documents (values of every kind) behind prefixes
+    let mut st = Stream::new("c17.scanc", true);
+    let n = if thorough { 6000 } else { 300 };
+    let mut cases = vec![];
+    for case in 0..n {
+        let mut rng = Rng::derive(seed, "c17.scanc", case);
+        let doc = gen_doc(&mut rng, true, Damage::None);
+        let l = if rng.chance(1, 3) { 0 } else { pick_prefix_len(&mut rng) };
+        let (p, _) = gen_prefix(&mut rng, l);
+        let mut buf = p.clone();
+        buf.extend_from_slice(&doc.bytes);
+        if buf.len() > 8000 { continue; }
+        let lens = doc_lens(&doc);
+        st.count(&format!("revisions={}", doc.sections.len()));
+        st.count(&format!("prefix={}", if l == 0 { "0" } else { ">0" }));
+        cases.push((format!("c17.scanc {} {}", hex(&buf), crate::c03::show_lens(&lens)), real_scanc(&buf, &lens)));
+    }
+    let reqs: Vec<String> = cases.iter().map(|c| c.0.clone()).collect();
+    for ((rq, imp), m) in cases.iter().zip(driver.ask(&reqs).iter()) {
+        let mm = canon_scanc_answer(m);
+        st.count(&format!("items={}", mm.split(' ').count().saturating_sub(1).min(20)));
+        st.case(rq, &mm, imp, true);
+    }
+    rep.streams.push(st);
+
+    // … and on the corpus (files without encryption, below 64 kB), with and without a prefix
+    let mut st = Stream::new("c17.scanc.corpus", true);
+    let mut cases = vec![];
+    for base in corpus() {
+        if base.bytes.len() > 64_000 || contains(&base.bytes, b"/Encrypt") { continue; }
+        // the resolver's answers for indirect lengths: every object whose value is an integer
+        let mut lens: crate::c03::LenMap = vec![];
+        let ok = catch_unwind(AssertUnwindSafe(|| {
+            if let Ok(mut storage) = Storage::with_cache(base.bytes.clone(), ParseOptions::strict(), NoCache, NoCache, NoLog) {
+                if let Ok(tr) = storage.load_storage_and_trailer() {
+                    let size = tr.get("Size").and_then(|p| p.as_integer().ok()).unwrap_or(0).max(0) as u64;
+                    let r = storage.resolver();
+                    let mut v = vec![];
+                    for id in 0..size {
+                        if let Ok(Primitive::Integer(i)) = r.resolve(PlainRef { id, gen: 0 }) { if i >= 0 { v.push(((id, 0u64), i as u64)); } }
+                    }
+                    return Some(v);
+                }
+            }
+            None
+        }));
+        match ok { Ok(Some(v)) => lens = v, _ => continue }
+        st.count(&format!("file={}", base.name));
+        let mut rng = Rng::derive(seed, "c17.scanc.corpus", base.bytes.len() as u64);
+        for k in 0..2 {
+            let l = if k == 0 { 0 } else { pick_prefix_len(&mut rng).min(1019 - base.own_start.min(1019)) };
+            let (p, _) = gen_prefix(&mut rng, l);
+            let mut buf = p.clone();
+            buf.extend_from_slice(&base.bytes);
+            cases.push((format!("c17.scanc {} {}", hex(&buf), crate::c03::show_lens(&lens)), real_scanc(&buf, &lens)));
+        }
+    }
+    let reqs: Vec<String> = cases.iter().map(|c| c.0.clone()).collect();
+    for ((rq, imp), m) in cases.iter().zip(driver.ask(&reqs).iter()) {
+        let mm = canon_scanc_answer(m);
+        st.count(&format!("outcome={}", mm.split(' ').next().unwrap_or("")));
+        st.case(rq, &mm, imp, true);
+    }
+    rep.streams.push(st);
+}
+
+// ---------------------------------------------------------------------------------------------------
 // oracle: f against p ++ f on the real library
 
 #[derive(Clone, Debug, PartialEq)]
@@ -1248,6 +1524,7 @@ pub fn run(driver: &Driver, seed: u64, thorough: bool, replay: Option<&Value>) -
             load_streams(driver, seed, thorough, &mut rep);
             scan_streams(driver, seed, thorough, &mut rep);
             readobj_streams(driver, seed, thorough, &mut rep);
+            concrete_streams(driver, seed, thorough, &mut rep);
         }
         return rep;
     }
@@ -1257,6 +1534,7 @@ pub fn run(driver: &Driver, seed: u64, thorough: bool, replay: Option<&Value>) -
     load_streams(driver, seed, thorough, &mut rep);
     scan_streams(driver, seed, thorough, &mut rep);
     readobj_streams(driver, seed, thorough, &mut rep);
+    concrete_streams(driver, seed, thorough, &mut rep);
     prefix_oracles(seed, thorough, &mut rep, None);
     rep
 }
